@@ -35,12 +35,13 @@ class _Return(Exception):
 class Fn:
     """A lambda value."""
 
-    __slots__ = ("arity", "body", "params")
+    __slots__ = ("arity", "body", "params", "kind")
 
-    def __init__(self, arity, body, params):
+    def __init__(self, arity, body, params, kind="lam"):
         self.arity = arity
         self.body = body
         self.params = params  # named parameters visible lexically (closure)
+        self.kind = kind      # "lam": a written lambda; "operand": a structure used as modifier operand
 
 
 def is_int(v):
@@ -190,7 +191,7 @@ class Model:
             raise Skip("recursion-depth")
         try:
             try:
-                self.run_body(f.body, fr, "lam")
+                self.run_body(f.body, fr, f.kind)
                 res = self.pop(fr)
             except _Return as r:
                 res = r.value
@@ -223,7 +224,9 @@ class Model:
             return Fn(0, [node], fr.params)
         if k in ("brk", "rec"):
             raise Skip("modifier-operand:break")
-        return Fn(1, [node], fr.params)
+        # the documents do not say whether X / x inside a structure used as an operand
+        # leaves the operand or an enclosing loop/function: parent "operand" makes the model skip
+        return Fn(1, [node], fr.params, kind="operand")
 
     # ---- execution ------------------------------------------------------
     def run_program(self, program):
